@@ -83,7 +83,7 @@ def run(chk, F, tier):
         npaths = 0
         for p in wk.run():
             r = p.ret
-            if p.end[0] != "return" or not (isinstance(r, tuple) and r[0] == "from_residual"):
+            if p.end[0] != "return" or not (isinstance(r, tuple) and (r[0] == "from_residual" or (r[0] == "agg" and r[3] == "Err"))):
                 continue
             npaths += 1
             stores = [e for e in p.events if e[0] == "store" and mir.mentions(e[1], lambda t: t == SELF)]
@@ -102,6 +102,45 @@ def run(chk, F, tier):
     r = sub.rules.get("K.read_word", {"instances": 0, "ok": 0})
     for i in range(r["ok"]):
         chk.ok("E2.fetch", "read_word#%d" % i)
+    # ---- E4: a word is fetched only when the request cannot be served from the buffer (otherwise the last values of a strict
+    # stream, which lie entirely within the data, would fail with the fetch)
+    chk.rule("E4.needed", floor=24, doc="read_bits / peek_bits / skip_bits of the buffered readers, W in {8,16,32,64}: on every path that fetches a backend word the request exceeds the buffered bits (n_bits > bits_in_buffer at entry)")
+    import numabs, lp, rules_num as rn, rules_effects as re_
+    from numabs import le, const
+    C = re_.ghost_contracts()
+    for spec in rn.reader_specs():
+        parts = spec.key.split(".")
+        if parts[0] != "reader" or parts[2] not in ("read_bits", "peek_bits", "skip_bits"):
+            continue
+        for w in spec.widths:
+            b = rn.find_body(F, spec.find)
+
+            def assume(num, spec=spec, w=w):
+                out = []
+                for text, goals in spec.inv(num, w):
+                    out.extend(goals)
+                out.extend(spec.pre(num, w))
+                return out
+            wk = numabs.NumWalker(b, numabs.Cfg(w), F, C, assume)
+            wk.inline = spec.inline
+            bad = None
+            nf = 0
+            for p in wk.run():
+                if not any(ev[1] == "traits::words::WordRead::read_word" for ev in p.calls()):
+                    continue
+                base = wk.full_store(p.state)
+                if not lp.feasible_cached(base):
+                    continue
+                nf += 1
+                wk.num.ctx_events = p.state["events"]
+                n = wk.num.aff(("arg", 2, "n_bits"))
+                b0 = wk.num.aff(("field", ("deref", rn.SELF), "bits_in_buffer"))
+                g = le(b0 + const(1), n) if (n is not None and b0 is not None) else None
+                if g is None or not lp.entails(wk.num.close(base, [g]), g):
+                    bad = bad or rn.describe_path(p)
+            chk.expect("E4.needed", "%s@u%d" % (spec.key, w), bad is None and nf >= 1,
+                       "%s, word u%d: a backend word is fetched on a path where the buffered bits may already cover the request: on a strict backend the fetch error would be reported although every requested bit is available" % (b["path"], w),
+                       detail={"fn": b["path"], "cfg": "u%d" % w, "path": bad}, sample={"fn": spec.key, "cfg": "u%d" % w, "fetching_paths": nf} if w == 64 else None)
     # ---- E5 adapter
     chk.rule("E5.adapter", floor=1, doc="WordAdapter::read_word fetches a whole word with read_exact into a W::Bytes buffer")
     b = F.one(name="read_word", trait_is="traits::words::WordRead", impl_self="impls::word_adapter::WordAdapter<")
